@@ -2,8 +2,8 @@ package main
 
 import (
 	"fmt"
-	"mime"
 	"go/types"
+	"mime"
 	"net/textproto"
 	"strings"
 
@@ -68,6 +68,27 @@ func (m *Machine) readerDrain(r Iface) (data *SliceV, err Value) {
 	}
 	switch x := (*p).(type) {
 	case *Opaque:
+		if lr, ok := x.X.(*limitedReader); ok {
+			// io.LimitReader(inner, n): the first n bytes of the stream. The stream of a harness body is
+			// pad blanks (a symbolic count, never materialised) followed by its data.
+			pad := m.readerPad(lr.inner)
+			data, err := m.readerDrain(lr.inner)
+			total := mkArith("+", pad, int64(len(data.A)))
+			if m.truth(mkCmp("<=", total, lr.n)) {
+				return data, err
+			}
+			if m.truth(mkCmp(">=", pad, lr.n)) {
+				return &SliceV{A: []Value{}}, err // nothing but blanks fits
+			}
+			k := m.concInt(mkArith("-", lr.n, pad), "cut point of a limited reader")
+			if k < 0 {
+				k = 0
+			}
+			if k > int64(len(data.A)) {
+				k = int64(len(data.A))
+			}
+			return &SliceV{A: append([]Value{}, data.A[:k]...)}, err
+		}
 		if f, ok := x.X.(*fileModel); ok {
 			// reading moves the file's offset: unsynchronised readers of one file race
 			m.raceAccess(m.cur, f, true, m.curIn)
@@ -102,6 +123,28 @@ func (m *Machine) readerDrain(r Iface) (data *SliceV, err Value) {
 	}
 	m.fail("unsupported", "reader of type "+r.T.String())
 	return nil, nil
+}
+
+type limitedReader struct {
+	inner Iface
+	n     Value
+}
+
+func (l *limitedReader) hashInto(h *hasher) { fmt.Fprintf(&h.sb, "limited(%v)", l.n) }
+
+// readerPad: the number of blanks that precede the data of a harness body (third field of the body
+// struct; 0 for every other reader). Consumers of a drained body are JSON decoders, for which leading
+// blanks mean nothing, so the blanks are never materialised: only a limited reader has to count them.
+func (m *Machine) readerPad(r Iface) Value {
+	if p, ok := r.V.(Ptr); ok && p != nil {
+		if x, ok := (*p).(Struct); ok && len(x) >= 3 {
+			switch v := x[2].(type) {
+			case int64, *Sym:
+				return v
+			}
+		}
+	}
+	return int64(0)
 }
 
 type fileModel struct {
@@ -248,6 +291,11 @@ func init() {
 		data, err := m.readerDrain(a[0].(Iface))
 		return Tuple{data, err}
 	}
+	R("io.LimitReader", func(m *Machine, a []Value) Value {
+		t := m.namedType("io", "LimitedReader")
+		c := newCell(Value(&Opaque{Kind: "limitedReader", X: &limitedReader{inner: a[0].(Iface), n: a[1]}}))
+		return Iface{T: ptrTo(t), V: c}
+	})
 	R("io/ioutil.ReadAll", readAll)
 	R("io.ReadAll", readAll)
 	R("verifRequestBody", func(m *Machine, a []Value) Value {
